@@ -16,6 +16,9 @@ import (
 	"verifharness/cmd/c04/aclh"
 )
 
+// share of the history positions at which the reference replica is offered an id alias of the next record
+var aliasNum, aliasDen = 1, 2
+
 func (h *hist) cloneOf(rp *replica, name string) *replica {
 	cp := rp.st.(interface{ Copy() list.Storage }).Copy()
 	c, err := h.build(name, rp.me, rp.v, cp, rp.pos)
@@ -127,6 +130,16 @@ func (h *hist) replicas() {
 		}
 		if i == n {
 			break
+		}
+		if r.Chance(aliasNum, aliasDen) {
+			// the next record under an alias of its id (other multibase / codec / CID version / case / padding of the same
+			// digest), at every position of the history; the genuine record follows (catch-up)
+			if m := h.mutate("cid_alias", i, r); m != nil {
+				h.add(A, m, h.recs[i].kind, "cid_alias", true, 0)
+				if A.forked {
+					break
+				}
+			}
 		}
 		if r.Chance(1, 15) {
 			// malleability probe on a clone: AcceptorTimestamp is not covered by any signature
